@@ -4,9 +4,10 @@ Lemmas: Iota/Proofs/Merkle.lean; the RFC relation `IsMTH`: Iota/Spec/Merkle.lean
 The bound `n ≤ 2^63` is Go's `int` range (a slice cannot be longer).
 -/
 import Iota.Proofs.Merkle
+import Iota.Proofs.MerkleTree
 
 namespace Iota.Props.C15
-open Iota.Merkle Iota.Spec.Merkle
+open Iota.Merkle Iota.Spec.Merkle Iota.Spec.MerkleTree
 
 /-- the split point is a power of two `k` with `k < n ≤ 2k` … -/
 theorem split_point (n : Nat) (h2 : 2 ≤ n) (h63 : n ≤ 2 ^ 63) :
@@ -51,6 +52,40 @@ theorem no_error_ok {ε : Type} (H : Bytes → Bytes) (data : List (Except ε By
     (h : firstError data = none) : ∃ r, hash H data = .ok r :=
   Proofs.Merkle.hash_ok_of_no_error H data.length data rfl h
 
+/-! ### "… which is what an independent bottom-up construction yields and what RFC 6962 audit paths verify against"
+Definitions: `Iota/Spec/MerkleTree.lean` — `bottomUp` pairs consecutive nodes level by level, promoting an unpaired last
+node, and never mentions a split point; `auditPath` is the RFC 6962 §2.1.1 PATH; `verifyPath` is the iterative verifier of
+RFC 9162 §2.1.3.2 (index and tree-size bits only). Proofs: `Iota/Proofs/MerkleTree.lean`. -/
+
+/-- the level-by-level construction yields the same root, for every hash function and every leaf count -/
+theorem hash_eq_bottomUp {ε : Type} (H : Bytes → Bytes) (D : List Bytes) (h63 : D.length ≤ 2 ^ 63) :
+    hash (ε := ε) H (D.map .ok) = .ok (bottomUp H D) :=
+  Proofs.MerkleTree.hash_eq_bottomUp H D h63
+
+theorem bottomUp_isMTH (H : Bytes → Bytes) (D : List Bytes) : IsMTH H D (bottomUp H D) :=
+  Proofs.MerkleTree.bottomUp_isMTH H D
+
+/-- the RFC 6962 audit path of every leaf verifies against the root `Hash` returns -/
+theorem audit_path_verifies {ε : Type} (H : Bytes → Bytes) (D : List Bytes) (h63 : D.length ≤ 2 ^ 63) (root : Bytes)
+    (hroot : hash (ε := ε) H (D.map .ok) = .ok root) (m : Nat) (leaf : Bytes) (hm : D[m]? = some leaf) :
+    verifyPath H m D.length leaf (auditPath H D m) = some root :=
+  Proofs.MerkleTree.hash_verifies H D h63 root hroot m leaf hm
+
+/-- an audit path has at most ⌈log₂ n⌉ nodes -/
+theorem audit_path_length (H : Bytes → Bytes) (D : List Bytes) (m e : Nat) (h : D.length ≤ 2 ^ e) :
+    (auditPath H D m).length ≤ e :=
+  Proofs.MerkleTree.auditPath_length_le H e _ D m rfl h
+
+/-- soundness of verification: unless `H` collides on the (finitely many) strings hashed in the honest and in the
+presented verification, a path that verifies against the root for index m is the audit path of the leaf at m. -/
+theorem audit_path_sound (H : Bytes → Bytes) (len : Nat) (hlen : ∀ x, (H x).length = len) (D : List Bytes) (m : Nat)
+    (leaf' : Bytes) (path' : List Bytes)
+    (hcf : ∀ d, D[m]? = some d → ∀ x ∈ verifyPathInputs H m D.length d (auditPath H D m),
+      ∀ y ∈ verifyPathInputs H m D.length leaf' path', H x = H y → x = y)
+    (hv : verifyPath H m D.length leaf' path' = some (mth H D)) :
+    D[m]? = some leaf' ∧ path' = auditPath H D m :=
+  Proofs.MerkleTree.verifyPath_sound H len hlen D m leaf' path' hcf hv
+
 /-! ### non-vacuity (H = identity, so the tree shape is visible in the result) -/
 example : largestPowerOfTwo 2 = 1 ∧ largestPowerOfTwo 3 = 2 ∧ largestPowerOfTwo 4 = 2 ∧
     largestPowerOfTwo 5 = 4 ∧ largestPowerOfTwo 1025 = 1024 ∧ largestPowerOfTwo (2^63) = 2^62 := by
@@ -60,5 +95,9 @@ example : IsMTH id [[7],[8],[9]] [1, 1,0,7,0,8, 0,9] :=
     (IsMTH.node [[7],[8]] 1 0 [0,7] [0,8] (by decide) rfl (by decide) (by decide) (IsMTH.leaf [7]) (IsMTH.leaf [8]))
     (IsMTH.leaf [9])
 example : firstError [.ok [1], .error "x", .error "y"] = some "x" := rfl
+
+/-- the bottom-up construction and audit-path verification on a 5-leaf tree with the identity "hash" -/
+example : bottomUp id [[7], [8], [9]] = [1, 1, 0, 7, 0, 8, 0, 9] ∧
+    verifyPath id 2 3 [9] (auditPath id [[7], [8], [9]] 2) = some (bottomUp id [[7], [8], [9]]) := by decide +kernel
 
 end Iota.Props.C15
